@@ -231,7 +231,7 @@ Definition run_text (cmd : Z) (args : list sexp) : option sexp :=
   end.
 
 (* ---- schema descriptions: strings are lists of code points *)
-From SV Require Import Schema.Model.
+From SV Require Import Schema.Model Schema.WfDec.
 Definition s_ustr (s : ustr) : sexp := SList (map s_n s).
 Definition g_ustr (s : sexp) : option ustr := g_list g_n s.
 Definition s_ulist := s_list s_ustr.
@@ -286,5 +286,8 @@ Definition run_schema (cmd : Z) (args : list sexp) : option sexp :=
   | 310, [o] => o <-? g_oc o ;; Some (chain s_oc (oc_print o) oc_from_string)
   | 311, [o] => o <-? g_at o ;; Some (chain s_at (at_print o) at_from_string)
   | 312, [o] => o <-? g_dcr o ;; Some (chain s_dcr (dcr_print o) dcr_from_string)
+  | 320, [o] => o <-? g_oc o ;; Some (s_bool (wf_oc_b o))
+  | 321, [o] => o <-? g_at o ;; Some (s_bool (wf_at_b o))
+  | 322, [o] => o <-? g_dcr o ;; Some (s_bool (wf_dcr_b o))
   | _, _ => None
   end.
